@@ -84,7 +84,8 @@ func (p *Prog) GoEntries() []*GoEntry {
 				}
 			}
 		}
-		if e.Recv == nil && e.Entry != nil && p.IsProduct(e.Entry) && e.Entry.Parent() == nil {
+		if e.Recv == nil && e.Entry != nil && p.IsProduct(e.Entry) {
+			// (also a closure literal started by a method: go func() { defer smpl.wg.Done(); ... }())
 			// a plain function that is not handed the discipline itself (handler(inner, handle)): it
 			// belongs to the discipline whose method or constructor starts it
 			encl := g.Parent()
